@@ -566,6 +566,43 @@ def c04_work(item, ctx):
                     return res
             res.nt("nodeid", old_id, new_id)
             return res
+        if kind == "sdoid":
+            # the server's own COB-IDs (1200h:1/2, writable in this dictionary): a valid COB-ID may only be replaced by an invalid one -
+            # 0609 0030h, and like every refused request it changes nothing: read-back, the identifiers the server works with, and what
+            # the server works with after the next reset communication (which reads the dictionary again)
+            sim.close()
+            nid_ = rng.choice([1, 2, 60, 127])
+            cfg = S.Config(nodeid=nid_, freq=1000, tmrnum=8)
+            gen.add_mandatory(cfg, ssdo=1, ssdo_rw=True)
+            cfg.add(S.var(0x2000, 0, S.RW, 4, 0x11223344))
+            cfg.finalize()
+            sim = S.Sim(exe, cfg)
+            rq, rs = 0x600 + nid_, 0x580 + nid_
+            def answered(rid):
+                evs_ = sim.rx(rid, bytes([0x40, 0x00, 0x20, 0x00, 0, 0, 0, 0]))
+                return [cid for (t, cid, dlc, d, f) in S.txs(evs_)]
+            for sub, cur in ((1, rq), (2, rs)):
+                for newv in (cur + 0x10, (cur + 0x21) & 0x7FF, cur | 0x20000000):
+                    code, _ = S.sdo_write(sim, nid_, 0x1200, sub, newv, 4)
+                    back, _ = S.sdo_read(sim, nid_, 0x1200, sub)
+                    res.evals += 1
+                    if code != 0x06090030 or back != cur:
+                        res.violation("c04/sdo-id/refused-write", "write of the valid COB-ID %x over the valid %x to 1200h:%d answered %r (reference 0609 0030h), read-back %r" % (
+                            newv, cur, sub, "%08x" % code if isinstance(code, int) else code, "%x" % back if isinstance(back, int) else back), sim=sim)
+                        return res
+            for phase in ("after the refused writes", "after reset communication", "after the restart on the RAM as it is"):
+                if phase == "after reset communication":
+                    sim.rx(0, bytes([130, nid_]))
+                elif phase.startswith("after the restart"):
+                    sim.cmd("reinit"); sim.cmd("start")
+                got = (answered(rq), answered(rq + 0x10), answered((rq + 0x21) & 0x7FF))
+                res.evals += 1
+                if got != ([rs], [], []):
+                    res.violation("c04/sdo-id/refused-write-effect", "%s the server answers %r to requests on %x / %x / %x, reference [[%x], [], []]" % (
+                        phase, [["%x" % c for c in g] for g in got], rq, rq + 0x10, (rq + 0x21) & 0x7FF, rs), sim=sim)
+                    return res
+            res.nt("sdoid", nid_)
+            return res
         if kind == "index":
             _, lo, hi, subs = item
             c04_sweep_indices(res, run, world, lo, hi, subs)
@@ -731,6 +768,7 @@ def configure(m, prop):
                     items.append(("sweep", st, c0, 32 if q else 16))
             items += [("toggle", i, 30 if q else 200) for i in range(8 if q else 32)]
             items += [("nodeid", i, 0) for i in range(4)]
+            items += [("sdoid", i, 0) for i in range(4)]
             items += [("rejected", i, 0) for i in range(2)]
             return items
         m.plan = plan
